@@ -234,6 +234,9 @@ func aqBuild(p aqP) (*world.World, *http.Request, *aqTruth) {
 		o.Destination, t.Conformant = cfg.SSOLocation(host), false
 	case "foreign":
 		o.Destination, t.Conformant = "https://evil.example/attr", false
+	case "pct-slash", "upper-host", "default-port", "padded", "userinfo", "dot-segment", "pct-letter":
+		o.Destination, t.Conformant = destSpelling(adv, p.Dest), false
+		t.DestAdvertised = o.Destination == adv
 	case "prefixed-advertised":
 		prefixedDest, t.DestAdvertised = adv, true
 		t.Conformant = false // SAML attributes are unqualified; a namespace-prefixed Destination is not schema-valid
